@@ -1,6 +1,7 @@
 package checks
 
 import (
+	"math"
 	"fmt"
 	"sort"
 	"strings"
@@ -25,10 +26,33 @@ type c04Set struct {
 	Upper  bool // single column grouped by upper(k)
 	Alias  bool // every grouping column but the first is selected under an alias (b AS b_x)
 	Nested bool // the first grouping column is the nested path d.x (selected AS a); rows also carry a top-level x with other values
+	// Exprs: per column "" (bare column) or a scalar-function template over the column ("upper(%s)", "sqrt(%s)");
+	// such a key is grouped by its value, NULL when the function has no value for the row
+	Exprs []string
+}
+
+// c04ExprValue: the value of a function-expression key for a raw column value (NULL when the function errors).
+func c04ExprValue(tmpl string, v any) any {
+	switch tmpl {
+	case "upper(%s)":
+		if s, ok := v.(string); ok {
+			return strings.ToUpper(s)
+		}
+		return nil
+	case "sqrt(%s)":
+		if f, ok := num(v); ok && f >= 0 {
+			return math.Sqrt(f)
+		}
+		return nil
+	}
+	return v
 }
 
 // outName: the name under which grouping column i is reported.
 func (s c04Set) outName(i int) string {
+	if i < len(s.Exprs) && s.Exprs[i] != "" {
+		return "g" + c04ColNames[i]
+	}
 	if s.Upper {
 		return "ua"
 	}
@@ -41,30 +65,34 @@ func (s c04Set) outName(i int) string {
 var us = "\x1f"
 
 var c04Sets = []c04Set{
-	{"none", 0, []c04Tuple{{}}, false, false, false},
-	{"pipe1", 1, []c04Tuple{{"a|b"}, {"a"}, {"b"}, {""}}, false, false, false},
-	{"null1", 1, []c04Tuple{{nil}, {""}, {"\x00NULL"}}, false, false, false},
-	{"missing1", 1, []c04Tuple{{c04Missing}, {""}, {"a"}}, false, false, false},
-	{"num1", 1, []c04Tuple{{1}, {1.5}, {-1}, {0}}, false, false, false},
-	{"us1", 1, []c04Tuple{{"a" + us + "b"}, {"a"}, {"b"}}, false, false, false},
-	{"upper1", 1, []c04Tuple{{"a"}, {"A"}, {"b"}}, true, false, false},
-	{"pipe2", 2, []c04Tuple{{"a|b", "c"}, {"a", "b|c"}, {"a", "b"}}, false, false, false},
-	{"us2", 2, []c04Tuple{{"a" + us + "b", "c"}, {"a", "b" + us + "c"}, {"a", "c"}}, false, false, false},
-	{"null2", 2, []c04Tuple{{nil, "x"}, {"", "x"}, {"\x00NULL", "x"}}, false, false, false},
-	{"comma2", 2, []c04Tuple{{"a,b", "c"}, {"a", "b,c"}, {"1", "2"}}, false, false, false},
-	{"num2", 2, []c04Tuple{{1, 1.5}, {1, -1}, {0, 1}}, false, false, false},
-	{"bignum1", 1, []c04Tuple{{16777216.0}, {16777217.0}, {9007199254740992.0}, {0.1}}, false, false, false},
-	{"bignum2", 2, []c04Tuple{{1700000000123.0, "x"}, {1700000000124.0, "x"}, {1700000000123.0, "y"}}, false, false, false},
-	{"bigint1", 1, []c04Tuple{{int64(9007199254740993)}, {int64(9007199254740992)}, {int64(-9007199254740993)}}, false, false, false},
-	{"nullnull2", 2, []c04Tuple{{nil, nil}, {"", ""}, {"a", nil}}, false, false, false},
-	{"pipe3", 3, []c04Tuple{{"a|b", "c", "d"}, {"a", "b|c", "d"}, {"a", "b", "c|d"}}, false, false, false},
-	{"empty3", 3, []c04Tuple{{"a", "", "b"}, {"a", "b", ""}, {"", "a", "b"}}, false, false, false},
+	{"none", 0, []c04Tuple{{}}, false, false, false, nil},
+	{"pipe1", 1, []c04Tuple{{"a|b"}, {"a"}, {"b"}, {""}}, false, false, false, nil},
+	{"null1", 1, []c04Tuple{{nil}, {""}, {"\x00NULL"}}, false, false, false, nil},
+	{"missing1", 1, []c04Tuple{{c04Missing}, {""}, {"a"}}, false, false, false, nil},
+	{"num1", 1, []c04Tuple{{1}, {1.5}, {-1}, {0}}, false, false, false, nil},
+	{"us1", 1, []c04Tuple{{"a" + us + "b"}, {"a"}, {"b"}}, false, false, false, nil},
+	{"upper1", 1, []c04Tuple{{"a"}, {"A"}, {"b"}}, true, false, false, nil},
+	{"pipe2", 2, []c04Tuple{{"a|b", "c"}, {"a", "b|c"}, {"a", "b"}}, false, false, false, nil},
+	{"us2", 2, []c04Tuple{{"a" + us + "b", "c"}, {"a", "b" + us + "c"}, {"a", "c"}}, false, false, false, nil},
+	{"null2", 2, []c04Tuple{{nil, "x"}, {"", "x"}, {"\x00NULL", "x"}}, false, false, false, nil},
+	{"comma2", 2, []c04Tuple{{"a,b", "c"}, {"a", "b,c"}, {"1", "2"}}, false, false, false, nil},
+	{"num2", 2, []c04Tuple{{1, 1.5}, {1, -1}, {0, 1}}, false, false, false, nil},
+	{"bignum1", 1, []c04Tuple{{16777216.0}, {16777217.0}, {9007199254740992.0}, {0.1}}, false, false, false, nil},
+	{"bignum2", 2, []c04Tuple{{1700000000123.0, "x"}, {1700000000124.0, "x"}, {1700000000123.0, "y"}}, false, false, false, nil},
+	{"bigint1", 1, []c04Tuple{{int64(9007199254740993)}, {int64(9007199254740992)}, {int64(-9007199254740993)}}, false, false, false, nil},
+	{"nullnull2", 2, []c04Tuple{{nil, nil}, {"", ""}, {"a", nil}}, false, false, false, nil},
+	{"pipe3", 3, []c04Tuple{{"a|b", "c", "d"}, {"a", "b|c", "d"}, {"a", "b", "c|d"}}, false, false, false, nil},
+	{"empty3", 3, []c04Tuple{{"a", "", "b"}, {"a", "b", ""}, {"", "a", "b"}}, false, false, false, nil},
 	// "reports that tuple under the selected column names": an un-renamed column before renamed ones
-	{"alias2", 2, []c04Tuple{{"a", "x"}, {"a", "y"}, {"b", "x"}}, false, true, false},
-	{"alias3", 3, []c04Tuple{{"a", "x", 1}, {"a", "y", 1}, {"a", "x", 2}}, false, true, false},
+	{"alias2", 2, []c04Tuple{{"a", "x"}, {"a", "y"}, {"b", "x"}}, false, true, false, nil},
+	{"alias3", 3, []c04Tuple{{"a", "x", 1}, {"a", "y", 1}, {"a", "x", 2}}, false, true, false, nil},
 	// GROUP BY on a nested path; time windows only (keyed windows do not resolve qualified keys: known finding under C16)
-	{"nested1", 1, []c04Tuple{{"p"}, {"q"}, {nil}}, false, false, true},
-	{"nested2", 2, []c04Tuple{{"p", 1}, {"q", 1}, {"p", 2}}, false, false, true},
+	{"nested1", 1, []c04Tuple{{"p"}, {"q"}, {nil}}, false, false, true, nil},
+	{"nested2", 2, []c04Tuple{{"p", 1}, {"q", 1}, {"p", 2}}, false, false, true, nil},
+	// function-expression keys next to bare columns and next to each other; the first function has no value for some rows
+	{"col-func", 2, []c04Tuple{{"r", "x"}, {"r", "y"}, {"s", "x"}, {"r", "X"}}, false, false, false, []string{"", "upper(%s)"}},
+	{"func-col", 2, []c04Tuple{{"x", "r"}, {"y", "r"}, {"X", "s"}}, false, false, false, []string{"upper(%s)", ""}},
+	{"func-func", 2, []c04Tuple{{4, "x"}, {4, "y"}, {c04Missing, "x"}, {c04Missing, "y"}, {-1, "x"}}, false, false, false, []string{"sqrt(%s)", "upper(%s)"}},
 }
 
 var c04Kinds = []string{"tumbling", "counting", "session", "global"}
@@ -142,7 +170,11 @@ var c04ColNames = []string{"a", "b", "c3"}
 func c04SQL(set c04Set, kind string) string {
 	var sel, grp []string
 	for i := 0; i < set.Cols; i++ {
-		if set.Upper {
+		if i < len(set.Exprs) && set.Exprs[i] != "" {
+			e := fmt.Sprintf(set.Exprs[i], c04ColNames[i])
+			sel = append(sel, e+" AS "+set.outName(i))
+			grp = append(grp, e)
+		} else if set.Upper {
 			sel = append(sel, "upper(a) AS ua")
 			grp = append(grp, "upper(a)")
 		} else if set.Nested && i == 0 {
@@ -179,7 +211,13 @@ func c04SQL(set c04Set, kind string) string {
 // groupKey is the reference's typed key (never a separator-joined string of raw values).
 func c04GroupKey(set c04Set, t c04Tuple) string {
 	var sb strings.Builder
-	for _, c := range t {
+	for ci, c := range t {
+		if ci < len(set.Exprs) && set.Exprs[ci] != "" {
+			if c == c04Missing {
+				c = nil
+			}
+			c = c04ExprValue(set.Exprs[ci], c)
+		}
 		switch v := c.(type) {
 		case nil, missingT:
 			sb.WriteString("N;")
